@@ -14,6 +14,7 @@ open Lean Pywbem.Proto Pywbem.Model
   {"op":"lexnum","text":S}   -> {"tok":"float","text":S,"rest":n} | {"tok":"int","v":"dec","rest":n} | {"tok":"error",..} | {"tok":null}
   {"op":"intstr","v":"dec"}  -> {"out":S}
   {"op":"strlist","text":S}                                         -> {"lex":null} | {"ok":S} | {"exc":..}
+  {"op":"strarray","text":S}                                        -> {"lex":null} | {"ok":[S..]} | {"exc":..}
   {"op":"roundtrip", mofstr arguments}                              -> mofstr, then strlist on its output -/
 
 def natsToJson (s : List Nat) : Json := Json.arr (s.map (fun (n : Nat) => (n : Json))).toArray
@@ -79,6 +80,11 @@ def handle (j : Json) : Json :=
     match MofLex.compileStringList (getNats j "text") with
     | none => Json.mkObj [("lex", Json.null)]
     | some r => strRes r
+  | some "strarray" =>
+    match MofLex.compileStringArray (getNats j "text") with
+    | none => Json.mkObj [("lex", Json.null)]
+    | some (.ok ss) => Json.mkObj [("ok", Json.arr (ss.map natsToJson).toArray)]
+    | some (.error e) => e.toJson
   | some "roundtrip" =>
     match MofStr.mofstr (getNats j "s") indent maxline pos es avoid q with
     | .error e => e.toJson
